@@ -359,8 +359,10 @@ def regex_guard(repo: Repo, fi: FuncInfo, test: ast.AST) -> Optional[Guard]:
 
 def guards_in(repo: Repo, fi: FuncInfo) -> List[Tuple[Node, Guard]]:
     out = []
+    from .x_objalias import through_local
+
     for n in fi.cfg.stmt_nodes(lambda n: n.kind == "test"):
-        g = regex_guard(repo, fi, n.ast)
+        g = regex_guard(repo, fi, through_local(fi, n.ast))
         if g is not None:
             out.append((n, g))
     return out
@@ -375,7 +377,9 @@ def regex_cleaner(repo: Repo, fi: FuncInfo, forbidden: Iterable[int], extra: Opt
         out = []
         if n.kind == "test":
             if n.id not in cache:
-                cache[n.id] = regex_guard(repo, fi, n.ast)
+                from .x_objalias import through_local
+
+                cache[n.id] = regex_guard(repo, fi, through_local(fi, n.ast))
             g = cache[n.id]
             if g is not None and g.clean_for(kind, forbidden):
                 out.append(g.var)
